@@ -9,6 +9,7 @@ import Driver.C08
 import Driver.C18
 import Driver.C16
 import Driver.C15
+import Driver.C06
 open Driver
 
 def handle (line : String) : String :=
@@ -27,6 +28,7 @@ def handle (line : String) : String :=
   | "c14v" :: args => c14v args
   | "c16" :: args => c16 args
   | "c15" :: args => c15 args
+  | "c06" :: args => c06 args
   | _ => "bad-op"
 
 partial def loop (h : IO.FS.Stream) (out : IO.FS.Stream) : IO Unit := do
